@@ -431,6 +431,20 @@ pub fn run_affine(a: &Args, out: &mut Out) {
         let mut rng = rng_from(a.seed, "near");
         near_curve(&mut rng, &poolr, out, decoders_only, if a.tier == "thorough" { 40 } else { 12 });
     }
+    // pairs SHARING one coordinate with a distinguished point (the generator, its negative): (x', +-y_G), (x_G, y'), (x_G, -y_G)
+    {
+        let mut rng = rng_from(a.seed, "gen-share");
+        let g1 = AffineG1::from_jacobian(G1::one()).unwrap();
+        let g2 = AffineG2::from_jacobian(G2::one()).unwrap();
+        for i in 0..6 {
+            let (rx, ry) = (rand_fq_nonzero(&mut rng), rand_fq_nonzero(&mut rng));
+            let (x, y) = match i { 0 => (rx, g1.y()), 1 => (rx, -g1.y()), 2 => (g1.x(), ry), 3 => (g1.x(), -g1.y()), 4 => (-g1.x(), g1.y()), _ => (g1.y(), g1.x()) };
+            offer::<G1>(out, &x.to_slice(), &y.to_slice(), "shares-generator-coordinate", decoders_only);
+            let (rx, ry) = (rand_fq2_nonzero(&mut rng), rand_fq2_nonzero(&mut rng));
+            let (x, y) = match i { 0 => (rx, g2.y()), 1 => (rx, -g2.y()), 2 => (g2.x(), ry), 3 => (g2.x(), -g2.y()), 4 => (-g2.x(), g2.y()), _ => (g2.y(), g2.x()) };
+            offer::<G2>(out, &x.to_slice(), &y.to_slice(), "shares-generator-coordinate", decoders_only);
+        }
+    }
     // G1 on / off-curve pairs whose x-coordinate is a Montgomery-boundary value of the TLC-generated pool (zero limbs, all-ones
     // limbs, half-limb boundaries ...): AffineG1::new squares the caller's coordinates directly
     if !decoders_only {
@@ -548,6 +562,24 @@ pub fn run_sqrt(a: &Args, out: &mut Out) {
             fq2_sqrt_ev(out, zeta);
             fq2_sqrt_ev(out, -zeta);
             fq2_sqrt_ev(out, zeta * ws[(t as usize) % ws.len()]);
+        }
+    }
+    // sweep: the zero-digit-square family and the conversion family as radicands (sqrt = pow: its squarings see these values first),
+    // their squares, and as compressed x; x = q - i with both prefixes
+    for v in poolq.vsq.iter().chain(poolq.cvt.iter().step_by(if a.tier == "thorough" { 1 } else { 3 })) {
+        let x = Fq::from_slice(v).unwrap();
+        fq_sqrt_ev(out, x);
+        fq_sqrt_ev(out, x * x);
+        fq2_sqrt_ev(out, Fq2::new(x, Fq::zero()));
+        let mut c = vec![2u8];
+        c.extend_from_slice(&x.to_slice());
+        decode_ev::<G1>(out, "cmp", &c);
+    }
+    for i in 1u8..60 {
+        for pre in [2u8, 3u8] {
+            let mut c = vec![pre];
+            c.extend_from_slice(&q_minus(i));
+            decode_ev::<G1>(out, "cmp", &c);
         }
     }
     let mut k = 0u64;
